@@ -235,6 +235,17 @@ def StageReference(dataReference,  # type: experiment.model.graph.DataReference
                 def hasParentSegment(name):
                     return os.pardir in name.split(os.sep)
 
+                def throughExistingLink(path):
+                    #True if path (normalised, inside realDest), or a directory on the way from the destination
+                    #to it, is a symbolic link that already exists e.g. a link reference staged earlier.
+                    #Where such a link leads can change while the archive is extracted (the archive may create
+                    #the name it points to), so nothing is extracted through, or on top of, one
+                    while len(path) > len(realDest):
+                        if os.path.islink(path):
+                            return True
+                        path = os.path.dirname(path)
+                    return False
+
                 members = tar.getmembers()
                 #Where each member is created: the names are normalised BEFORE they are compared with the
                 #destination (a/../../b is outside even though it begins with the characters of the destination)
@@ -245,7 +256,7 @@ def StageReference(dataReference,  # type: experiment.model.graph.DataReference
                     newPath = newPaths[i]
                     outside = hasParentSegment(f.name) or not isInside(newPath)
                     #Something already in the destination (e.g. a link reference staged earlier) may redirect newPath
-                    outside = outside or not isInside(os.path.realpath(newPath))
+                    outside = outside or throughExistingLink(newPath)
                     #Nothing may be extracted through, or on top of, a symbolic link that the archive itself creates
                     outside = outside or any(j != i and isInside(newPath, os.path.join(linkPath, ''))
                                              for (j, linkPath) in linkPaths)
@@ -257,7 +268,7 @@ def StageReference(dataReference,  # type: experiment.model.graph.DataReference
                         #Hard link targets are names of other members of the archive
                         linkTarget = os.path.normpath(os.path.join(realDest, f.linkname))
                         outside = outside or hasParentSegment(f.linkname) or not isInside(linkTarget)
-                        outside = outside or not isInside(os.path.realpath(linkTarget))
+                        outside = outside or throughExistingLink(linkTarget)
                         outside = outside or any(isInside(linkTarget, os.path.join(linkPath, ''))
                                                  for (j, linkPath) in linkPaths)
                     if outside:
